@@ -49,6 +49,12 @@ func (p *FloatingIPPlugin) Bind(args *schedulerapi.ExtenderBindingArgs) error {
 		// see https://github.com/kubernetes/kubernetes/pull/60332
 		return fmt.Errorf("pod which doesn't want floatingip have been sent to plugin")
 	}
+	if args.PodUID != "" && pod.UID != "" && args.PodUID != pod.UID {
+		// the pod in cache is an older pod with the same name, wait for the cache to catch up instead of recording
+		// the old pod's uid for the ip of the new pod
+		return fmt.Errorf("pod %s in cache has uid %s, but binding pod uid is %s, waiting for cache to be synced",
+			util.Join(args.PodName, args.PodNamespace), pod.UID, args.PodUID)
+	}
 	defer p.lockPod(pod.Name, pod.Namespace)()
 	keyObj, err := util.FormatKey(pod)
 	if err != nil {
